@@ -302,6 +302,27 @@ pub fn run(ctx: &Ctx) -> Finish {
             }
         }
     });
+    // constraint ids at the top of the id space (ids are opaque: nothing may be computed from them)
+    ctx.seq(|l| {
+        for (oi, o) in objs.iter().enumerate() {
+            for (k, pa) in pool.iter().enumerate() {
+                let pb = &pool[(k * 5 + 3) % pool.len()];
+                let inst = InstRep {
+                    sense: if (oi + k) % 2 == 0 { SENSE_MIN } else { SENSE_MAX },
+                    objective: o.clone(),
+                    vars: layouts[k % 2].iter().map(|id| VarRep::new(*id, KIND_CONTINUOUS, None)).collect(),
+                    constraints: vec![ConRep::new(u64::MAX - 1, pa.0, pa.1.clone()), ConRep::new(3, pb.0, pb.1.clone()).with_meta("m")],
+                    removed: vec![RemRep { constraint: ConRep::new(u64::MAX, LE_ZERO, cfs[2].clone()), reason: "earlier".into(), parameters: vec![] }],
+                    ..Default::default()
+                };
+                for uniform in [false, true] {
+                    l.states += 1;
+                    let weights = if uniform { vec![2.0] } else { vec![-0.5, 2.0] };
+                    check_case(l, &Case { inst: inst.clone(), uniform, weights, state: vec![(1, 0.5), (2, -1.0)] });
+                }
+            }
+        }
+    });
     // full weight grid x states on a small set of instances
     ctx.seq(|l| {
         let a = &active_lists[active_lists.len() - 5];
